@@ -128,7 +128,7 @@ var specBig = pbt.Register(&pbt.Spec[Case]{
 	Property: "C13", Name: "C13.big", Rule: "enumerated thresholds: for every T = 2^k+d, k in 5..13 (thorough 5..16), d in -2..2: " +
 		"(a) exactly T windows: size in {1,2,3,8,61}, n = T+size-1; (b) exactly T chunks: size in {1,2,3,7}, last chunk of length 1 and of length size; " +
 		"(c) n = T with size in {T/2-1,T/2,T/2+1,T-2,T-1,T,T+1,isqrt(T),isqrt(T)+1}; (d) size = T with n = q*T+r, q in 1..3, r in {0,1,2,T-1}; " +
-		"(e) every n in 0..3000 (thorough 0..20000) with size 1, i.e. every number of windows, chunks and pairs up to that bound, with int and with struct{} elements, and for the first quarter of that range also sizes 2, 3 and 128-byte elements (sizes 1, 2); " +
+		"(e) every n in 0..2200 (thorough 0..20000) with size 1, i.e. every number of windows, chunks and pairs up to that bound, with int and with struct{} elements, and for the first quarter of that range also sizes 2, 3 and 128-byte elements (sizes 1, 2); " +
 		"int elements throughout, (a) size 2 and (b) size 3 also with 128-byte, uint8 and zero-size elements; window contents are compared in full up to 2^20 element " +
 		"comparisons per call and at 64 spread positions per window beyond; " + rule + "non-trivial = n >= 30 or size >= 30",
 	Enum: func(shard, shards int, tier string, yield func(Case) bool) {
@@ -181,7 +181,7 @@ var specBig = pbt.Register(&pbt.Spec[Case]{
 			}
 		}
 		// (e) every length, so that every number of pieces up to the bound occurs exactly (thresholds that are not powers of two)
-		sweep := 3000
+		sweep := 2200
 		if tier == "thorough" {
 			sweep = 20000
 		}
